@@ -4,7 +4,7 @@ wt=$1; pid=$2; shift 2
 k=1
 for suf in "$@"; do
   if [ -f $wt/_seed$k/patch.diff ]; then
-    /venv/bin/python /verif/tools/seed_eval.py $wt $pid-$suf --seed-dir=_seed$k --apply-patch
+    /venv/bin/python $(dirname $(readlink -f $0))/seed_eval.py $wt $pid-$suf --seed-dir=_seed$k --apply-patch
   else
     echo "$pid-$suf: no _seed$k/patch.diff in $wt"
   fi
